@@ -128,7 +128,7 @@ def _unescape(s):
     return s.replace('\\"', '"').replace("\\\\", "\\")
 
 
-def tlc_check(spec, cfg, work, workers=8, timeout=600, coverage=True, want_emit=False, simulate=None):
+def tlc_check(spec, cfg, work, workers=8, timeout=600, coverage=True, want_emit=False, simulate=None, sim_seed=0):
     """Model-checks `cfg`. Returns dict(states, distinct, violated, coverage, cases, wall)."""
     spec_p = os.path.join(SPECS, spec)
     cfg_p = os.path.join(SPECS, cfg)
@@ -137,7 +137,7 @@ def tlc_check(spec, cfg, work, workers=8, timeout=600, coverage=True, want_emit=
     if coverage and not simulate:
         extra += ["-coverage", "1"]
     if simulate:
-        extra += ["-simulate", simulate]
+        extra += ["-simulate", simulate, "-seed", str(int(sim_seed))]   # reproducible sample for a given VERIF_SEED
     out_p = os.path.join(work, os.path.splitext(cfg)[0] + ".out")
     t0 = time.time()
     with open(out_p, "w") as out:
